@@ -18,8 +18,9 @@
 (*           S.funcs    label (the identifier, "func" when there is none), *)
 (*                      rets: the named return values                      *)
 (*           S.parts    label, trivial (the one part of an unpartitioned   *)
-(*                      graph: no cluster), outs (names), recvs / sends    *)
-(*                      (name, label fields [, data node])                 *)
+(*                      graph: no cluster), outs (names), user (names of   *)
+(*                      user inputs), recvs / sends (name, label fields    *)
+(*                      [, data node])                                     *)
 (*           S.outputs  name -> node (name_to_output), S.overall (names)   *)
 (* Part 2  Picture(S, mode): the picture S is owed -- a sequence of ITEMS  *)
 (*         (one per node instance: per part, per function body per part;   *)
@@ -136,6 +137,7 @@ Picture(S, mode) ==
                                        /\ \A z \in DOMAIN S.parts[p].recvs :
                                             S.parts[p].recvs[z].name = nm => j <= z
                             IN RecvPos(p, i)
+      users == UNION {Range(S.parts[p].user) : p \in 1..NP}
       producer(nm) == LET ps == {p \in 1..NP : nm \in Range(S.parts[p].outs)}
                       IN IF ps = {} THEN 0 ELSE CHOOSE q \in ps : \A z \in ps : q <= z
       \* -- the groups of items
@@ -150,6 +152,7 @@ Picture(S, mode) ==
       phKids(k) ==
         LET nm == S.nodes[k].name IN
         IF recvOf(nm) # 0 THEN <<Edge(recvOf(nm), "", "dotted", FALSE)>>
+        ELSE IF nm \in users THEN <<>>             \* a user input: no arrow
         ELSE IF producer(nm) # 0
              THEN <<Edge(InstPos(producer(nm), OutNode(S, nm)), "", "dashed", FALSE)>>
              ELSE <<>>
@@ -243,7 +246,8 @@ Entries(P, R, shown) ==
 
 \* classes of the combined sequence: free = cluster erased everywhere below;
 \* cls = with clusters (an "anyinst" edge looks at the free class of its source)
-ClsStep(E, withOid, prev, k) ==
+\* (withCl = FALSE: no entry has a cluster, cls = free, one scan per entry)
+ClsStep(E, withOid, withCl, prev, k) ==
   LET e == E[k]
       oid == IF withOid THEN e.oid ELSE 0
       kb0 == BagOfSeq([q \in DOMAIN e.kids |->
@@ -257,12 +261,18 @@ ClsStep(E, withOid, prev, k) ==
       same0 == {j \in 1..(k - 1) : prev.s0[j] = sig0}
       same1 == {j \in 1..(k - 1) : prev.s1[j] = sig1}
       first(X) == IF X = {} THEN k ELSE CHOOSE j \in X : \A z \in X : j <= z
-  IN [free |-> Append(prev.free, first(same0)), cls |-> Append(prev.cls, first(same1)),
-      s0 |-> Append(prev.s0, sig0), s1 |-> Append(prev.s1, sig1)]
-ClsUpTo(E0, withOid, k) ==
+      f0 == first(same0)
+  IN IF withCl
+     THEN [free |-> Append(prev.free, f0), cls |-> Append(prev.cls, first(same1)),
+           s0 |-> Append(prev.s0, sig0), s1 |-> Append(prev.s1, sig1)]
+     ELSE [free |-> Append(prev.free, f0), cls |-> Append(prev.cls, f0),
+           s0 |-> Append(prev.s0, sig0), s1 |-> prev.s1]
+ClsUpToX(E0, withOid, withCl, k) ==
   LET E == TLCEval(E0)
       start == [free |-> <<>>, cls |-> <<>>, s0 |-> <<>>, s1 |-> <<>>]
-  IN SeqX!FoldLeft(LAMBDA acc, i : TLCEval(ClsStep(E, withOid, acc, i)), start, [i \in 1..k |-> i])
+  IN SeqX!FoldLeft(LAMBDA acc, i : TLCEval(ClsStep(E, withOid, withCl, acc, i)), start,
+                   [i \in 1..k |-> i])
+ClsUpTo(E0, withOid, k) == ClsUpToX(E0, withOid, TRUE, k)
 
 ClassBagsEqual(E, n, withOid) ==
   LET c == ClsUpTo(E, withOid, Len(E)).cls
